@@ -56,7 +56,7 @@ THEOREMS += ['CC.C10_gen_Delta', 'CC.C10_gen_Q', 'CC.C10_gen_cols', 'CC.C10_gen_
     'CC.C10_gen_mappers_forwarded']
 LEAN_MODULE_EXTRA = list(globals().get('LEAN_MODULE_EXTRA', [])) + ['CC.Properties.C10Gen']
 
-OPEN_STATEMENTS = []
+OPEN_STATEMENTS = ['CC.C10_output_rows_statement — the voltage and current OUTPUT ROWS (c_row_voltage, c_row_current, d_row_*) give the report read from y = C x + D u: model = generated code (C10_gen_row_*) + correspondence + oracle only']
 ASSUMPTIONS = [
     'numpy.linalg.inv is a parameter of the model: theorems hold for every pair of matrices with Ã·Ainv = 1 and (DQᵀ Ainv DQ)·S = 1; numpy\'s own inverses are checked against these equations on every case (exact residual ≤ 1e-9)',
     'binary64 arithmetic of numpy agrees with field arithmetic within 1e-9 relative on the dyadic, well-conditioned instances generated (cond < 1e6; others are counted as skipped)',
